@@ -345,19 +345,39 @@ func c13One(cc c13Cell, keys [][]byte, vals []interface{}, exp []bool, perm int)
 	ctx := context.Background()
 	ops := 0
 
+	// Entries are written through ONE scratch buffer that is overwritten after every call (callers do reuse
+	// key buffers); what must arrive at the target is what was WRITTEN, not what the source's Walk reports.
+	want := map[string]xent{}
+	scratch := make([]byte, 0, 128)
+
 	for i, k := range keys {
 		wctx := ctx
+		e := int64(0)
+
 		if exp[i] {
-			wctx = cache.WithTTL(ctx, time.Duration(i+1)*time.Hour, false)
+			ttl := time.Duration(i+1) * time.Hour
+			wctx = cache.WithTTL(ctx, ttl, false)
+			e = vclock.NowQuiet().Add(ttl).UnixNano()
 		}
 
-		src.Put(wctx, k, vals[i])
+		scratch = append(scratch[:0], k...)
+		src.Put(wctx, scratch, vals[i])
+
+		for j := range scratch[:cap(scratch)] {
+			scratch[:cap(scratch)][j] = 0xEE
+		}
+
+		want[string(k)] = xent{V: vals[i], E: e}
 		ops++
 	}
 
-	want, order, n0 := src.Snapshot()
-	if n0 != len(keys) || len(want) != len(keys) {
-		return "setup", fmt.Sprintf("source holds %d entries (walk count %d), wrote %d", len(want), n0, len(keys)), ops
+	have, order, n0 := src.Snapshot()
+	if n0 != len(keys) || len(have) != len(keys) {
+		return "setup", fmt.Sprintf("source holds %d entries (walk count %d), wrote %d", len(have), n0, len(keys)), ops
+	}
+
+	if msg := compareSnap("source cache (Walk) vs entries written", want, have); msg != "" {
+		return "source-content", msg, ops
 	}
 
 	if cc.Src == "SM" || strings.HasPrefix(cc.Src, "OF") {
